@@ -9,6 +9,7 @@ Decided clauses:
       the first store to the object's pose and the first in-place write through an alias of it
   P4  paired writes: every function that stores _position also stores _orientation (and vice versa); the writers of either attribute
       are exactly the triaged set
+  P4b both pose paths stored by apply_move/apply_rotation derive from the one path_padding(...) result (same padding for both)
   P5  (E3-ORIGIN) the only arrays written in place by the pose operations are the pose paths of the object being updated
 Not decided: the padding arithmetic of path_padding_param over unbounded integers, edge-padding content, operation sequences.
 """
@@ -204,12 +205,59 @@ def p4(repo, res):
         raise AnalysisError(f"P4: triaged pose writers vanished: {sorted(missing)}")
 
 
+def p4b(repo, res):
+    """both pose paths must come out of ONE padding computation: where a function obtains a padded position path from
+    path_padding(...), the orientation it stores derives from the quaternion path returned by the same call (or from np.pad with
+    the very same padding variable).  Independent padding can pad one path in front and the other behind."""
+    m = repo.mod(T)
+    for fname in ("apply_move", "apply_rotation"):
+        fn = m.funcs.get(fname)
+        res.require(fn is not None, f"anchor vanished: {fname}")
+        pp = [s for s in ast.walk(fn) if isinstance(s, ast.Assign) and isinstance(s.value, ast.Call) and getattr(s.value.func, "id", "") == "path_padding"
+              and isinstance(s.targets[0], ast.Tuple)]
+        if not pp:
+            res.notes.append(f"P4b: {fname} does not use path_padding")
+            continue
+        elts = pp[0].targets[0].elts
+        res.require(len(elts) >= 2, f"{fname}: path_padding result no longer unpacked")
+        pvar = elts[0].id if isinstance(elts[0], ast.Name) else None
+        ovar = elts[1].id if isinstance(elts[1], ast.Name) else None
+        defs = {}
+        for s in ast.walk(fn):
+            if isinstance(s, ast.Assign) and len(s.targets) == 1 and isinstance(s.targets[0], ast.Name):
+                defs.setdefault(s.targets[0].id, []).append(s.value)
+
+        def derives(e, var, depth=0):
+            if var is None:
+                return False
+            for x in ast.walk(e):
+                if isinstance(x, ast.Name):
+                    if x.id == var:
+                        return True
+                    if depth < 4 and x.id in defs and x.id not in (pvar, ovar):
+                        if any(derives(v, var, depth + 1) for v in defs[x.id]):
+                            return True
+            return False
+        for st in ast.walk(fn):
+            if not isinstance(st, ast.Assign):
+                continue
+            for t in st.targets:
+                if isinstance(t, ast.Attribute) and isinstance(t.value, ast.Name) and t.value.id == "target_object" and t.attr in ("_position", "_orientation"):
+                    want = pvar if t.attr == "_position" else ovar
+                    ok = derives(st.value, want) and want not in ("_", None)
+                    res.ob(f"P4b:{fname}:{t.attr}", ok, {"rule": "P4b", "function": fname, "store": norm(st), "must_derive_from": want})
+                    if not ok:
+                        res.add(Finding("P4b", m.rel, fname, st, f"the stored {t.attr[1:]} path does not derive from the path returned by the common "
+                                        "path_padding(...) call: position and orientation may be padded differently (front vs. behind)", st.lineno))
+
+
 def run(repo, res, tier):
     res.rules = ["P1 composition/anchoring (FRAME)", "P2 rotate_from_* delegation", "P3 reject-before-mutate", "P4 paired pose writes / who-may-write"]
     frame_rules.c09_p1(repo, res)
     p2(repo, res)
     p3(repo, res)
     p4(repo, res)
+    p4b(repo, res)
     import origin_rules
     origin_rules.pose_mutations(repo, res, rule="P5")
     res.assumptions += ["SciPy/NumPy calls after the first in-place write do not raise (shapes are made consistent by path_padding before)",
